@@ -271,6 +271,10 @@ def run(tier, seed, replay=None):
         case, outcome = one_run(c, random.Random(rnd.getrandbits(48)), rid, spec)
         cases.append(case)
         outcomes.append(outcome)
+    left = sum(1 for o in outcomes if o.endswith(" TMP"))
+    if left:
+        c.notes.append("%d failing rewriting commands left their <random>.pna.tmp in TMPDIR (predicted by the model: the script has no "
+                       "clean-up effect; the file never takes the archive's place, so this is reported, not counted as a violation)" % left)
     c.correspondence_py("update", cases, outcomes)
     return c.finish("proof", ["Coq 8.16.1 kernel and VM", "ExtrOcamlBasic extraction + modelrun/driver.ml",
                               "props/_update.py", "harness/src/bin/dump.rs", "vlib/cli.py"])
